@@ -26,6 +26,13 @@ pub struct Sample {
     #[serde(with = "records_as_text")]
     pub records: Vec<(String, Vec<u8>)>,
     pub wrap: usize,
+    /// file path relative to the run directory when it is not `<name>.fa` (sub-directory, other
+    /// extension or case, dots in the stem, gzip); chosen so that ska derives `name` from it
+    #[serde(default, skip_serializing_if = "Option::is_none")]
+    pub path: Option<String>,
+    /// write the sequence in lower case
+    #[serde(default, skip_serializing_if = "std::ops::Not::not")]
+    pub lower: bool,
 }
 mod records_as_text {
     use serde::{Deserialize, Deserializer, Serialize, Serializer};
@@ -50,7 +57,22 @@ impl Sample {
             .collect()
     }
     pub fn file(&self) -> String {
-        format!("{}.fa", self.name)
+        self.path.clone().unwrap_or_else(|| format!("{}.fa", self.name))
+    }
+    /// the bytes of the sample's sequence file (gzip-compressed when the path says so)
+    pub fn bytes(&self) -> Vec<u8> {
+        let mut text = self.fasta();
+        if self.lower {
+            text = text.lines().map(|l| if l.starts_with('>') { l.to_string() } else { l.to_ascii_lowercase() }).collect::<Vec<_>>().join("\n") + "\n";
+        }
+        if self.file().ends_with(".gz") {
+            use std::io::Write;
+            let mut e = flate2::write::GzEncoder::new(Vec::new(), flate2::Compression::default());
+            e.write_all(text.as_bytes()).expect("gzip");
+            e.finish().expect("gzip")
+        } else {
+            text.into_bytes()
+        }
     }
     pub fn total_len(&self) -> usize {
         self.records.iter().map(|r| r.1.len()).sum()
@@ -227,6 +249,8 @@ pub fn gen_samples(rng: &mut Rng, n: usize, k: usize, o: &GenomeOpts, prefix: &s
             name: format!("{prefix}{i}"),
             records,
             wrap: *rng.pick(&[0usize, 0, 60, 70, 33]),
+            path: None,
+            lower: false,
         });
     }
     out
@@ -268,6 +292,8 @@ pub fn gen_fits64_samples(rng: &mut Rng, n: usize, k: usize, prefix: &str) -> Ve
                 name: format!("{prefix}{i}"),
                 records,
                 wrap: 0,
+                path: None,
+                lower: false,
             }
         })
         .collect()
@@ -343,4 +369,32 @@ pub fn simulate_reads(rng: &mut Rng, genome: &[u8], coverage: usize, len: usize)
         }
     }
     (f, r)
+}
+
+/// Unusual but legal ways of storing some samples' sequence files: a sub-directory, `.fasta` /
+/// upper-case extensions, dots in the stem, gzip, lower-case sequence. Paths are chosen so that the
+/// sample name ska derives from the path equals `name` (a `.fa.gz` file keeps its whole file name
+/// as sample name, as ska's name pattern leaves it).
+pub fn vary_paths(rng: &mut Rng, samples: &mut [Sample]) {
+    for s in samples.iter_mut() {
+        if s.name.contains(char::is_whitespace) {
+            continue;
+        }
+        match rng.below(12) {
+            0 => s.path = Some(format!("d1/{}.fa", s.name)),
+            1 => s.path = Some(format!("{}.fasta", s.name)),
+            2 => s.path = Some(format!("{}.FA", s.name)),
+            3 => s.path = Some(format!("d1/d2/{}.Fasta", s.name)),
+            4 => {
+                s.name = format!("{}.v2", s.name);
+                s.path = Some(format!("{}.fa", s.name));
+            }
+            5 => {
+                s.name = format!("{}.fa.gz", s.name);
+                s.path = Some(s.name.clone());
+            }
+            6 => s.lower = true,
+            _ => {}
+        }
+    }
 }
